@@ -41,7 +41,7 @@ fn main() {
     let reps: usize = args.get(3).and_then(|s| s.parse().ok()).unwrap_or(1);
     heapwatch::enable();
     let mut o = Out { histories: 0, hits: 0 };
-    let lens = [1usize, 16, 100, 1000, 4095, 4096, 4097, 5000, 8199, 20_000, 70_000];
+    let lens = [1usize, 16, 100, 1000, 4095, 4096, 4097, 5000, 8199, 20_000, 70_000, 140_000, 1_100_000];
     let mut case = 0usize;
     for rep in 0..reps {
         for (li, &len) in lens.iter().enumerate() {
@@ -143,6 +143,50 @@ fn main() {
                 check(&mut o, "Locked<HeapByteArray<16>>: from_slice_into_locked, drop", len);
             }
             wipe(&mut src);
+        }
+    }
+    // ---- the same kinds of release in a forked child (a process that already released blocks, then forks): the child
+    // ---- releases containers it inherited and containers it creates itself
+    if shard == 0 {
+        use std::io::Write;
+        let inherited = HeapBytes::from(&pattern(0x33, 5000)[..]);
+        let inherited_locked = HeapBytes::from_slice_into_locked(&pattern(0x34, 300)).ok();
+        let _ = std::io::stdout().flush();
+        let pid = unsafe { libc::fork() };
+        if pid == 0 {
+            let mut oc = Out { histories: 0, hits: 0 };
+            drop(inherited);
+            drop(inherited_locked);
+            check(&mut oc, "HeapBytes: [forked child] drop containers inherited across fork() (one plain, one locked)", 5000);
+            for len in [100usize, 5000] {
+                let mut src = pattern(0x35, len);
+                {
+                    let mut h = HeapBytes::from(&src[..]);
+                    h.resize(len * 2 + 3000, 0x41);
+                    drop(h);
+                }
+                check(&mut oc, "HeapBytes: [forked child] fill, grow (reallocates), drop", len);
+                {
+                    let h = HeapBytes::from(&src[..]);
+                    let c = h.clone();
+                    drop(h);
+                    drop(c);
+                }
+                check(&mut oc, "HeapBytes: [forked child] fill, clone, drop both", len);
+                wipe(&mut src);
+            }
+            println!("CHILD	histories={}	hits={}", oc.histories, oc.hits);
+            let _ = std::io::stdout().flush();
+            unsafe { libc::_exit(0) };
+        } else if pid > 0 {
+            let mut status = 0i32;
+            unsafe { libc::waitpid(pid, &mut status, 0) };
+            if !(libc::WIFEXITED(status) && libc::WEXITSTATUS(status) == 0) {
+                println!("HIT	HeapBytes: [forked child] histories	len=0	child_died_status_{}", status);
+            }
+            drop(inherited);
+            drop(inherited_locked);
+            check(&mut o, "HeapBytes: [parent after fork] drop", 5000);
         }
     }
     let (rec, freed, full) = heapwatch::counters();
